@@ -79,7 +79,7 @@ def main(argv=None):
     sel = [u for u in units if (a.tier == 'thorough' or u.tier == 'quick') and u.kind != 'assumed']
     if a.unit:
         sel = [u for u in sel if u.name in a.unit]
-    outroot = os.path.join(VERIF, 'out', prop)
+    outroot = os.path.join(os.environ.get('GV_OUT', os.path.join(VERIF, 'out')), prop)
     os.makedirs(outroot, exist_ok=True)
     results = []
     with cf.ThreadPoolExecutor(max_workers=a.j) as ex:
